@@ -295,6 +295,11 @@ class PDict:
         return self.items is None
 
     def promote(self, vkind, empty=False):
+        if vkind == "intlist-by-value":
+            # int lists are stored and handed out BY VALUE: `d[k] = lst` copies the entries and freezes `lst`, `d[k]` is a frozen
+            # snapshot (aliasing between the dict entry and other references is not tracked, so every later write through
+            # either of them is a failed frame obligation)
+            vkind, self.by_value = "intlist", True
         self.items = None
         self.vkind = vkind
         nm = self.name
@@ -436,6 +441,8 @@ def snapshot(v, memo=None):
             c.items = {k: snapshot(x, memo) for k, x in v.items.items()}
         else:
             c.items, c.dom, c.val, c.lens, c.vkind = None, v.dom, v.val, v.lens, v.vkind
+        if getattr(v, "by_value", False):
+            c.by_value = True
         return c
     elif isinstance(v, Obj):
         c = Obj(v.cls, name=v.name)
